@@ -66,6 +66,16 @@ def strategy(tier):
     return _cases(tier)
 
 
+def directed_cases(tier):
+    """A gapped recording whose calls go through every write entry point after a file roll-over: rf_write crossing a
+    file boundary, then block writes (rf_write_blocks reaches digital_rf_write_blocks_hdf5 directly), then rf_write."""
+    cfg = {"kind": "i", "size": 2, "order": "<", "cplx": 1, "form": "struct", "nsub": 1, "n": 100, "d": 1, "F": 1000, "S": 10,
+           "cont": 0, "comp": 0, "checksum": 0, "salt": 5, "uuid": "verif", "start": 170000000040}
+    ops = [{"op": "w", "idx": 0, "len": 90}, {"op": "b", "len": 50, "g": [100, 180], "d": [0, 30]},
+           {"op": "b", "len": 40, "g": [260, 300], "d": [0, 10]}, {"op": "w", "idx": 400, "len": 30}]
+    return [{"cfg": cfg, "ops": ops, "py_sample": [3, 14, 15, 92, 65, 35]}]
+
+
 def call_of_op(events):
     """op index -> call number in progress, plus per-call rc, plus ordered list of op records."""
     cur = None
